@@ -120,6 +120,7 @@ def draw_scenario(rng, prop, index, tier):
     sc["strategy"] = rng.choice(STRATEGIES)
     sc["pseed"] = rng.getrandbits(48)
     sc["fault"] = None
+    sc["fsize"] = None
     return sc
 
 
@@ -233,7 +234,16 @@ def run_scenario(sc, seed, index, wl, keep=False):
         procs = prepare_dir(sc, d, rng_for("fs-prior", seed, index, wl.n), inputs, extra, ref_out)
         before = snapshot(d)
         plan = Plan(sc["pseed"], sc["strategy"], faults=[sc["fault"]] if sc["fault"] else [])
-        r = sim_link(link_argv(sc, inputs, extra), d, plan, tag="run", ctl_dir=ctl)
+        preexec = None
+        if sc.get("fsize"):
+            limit = int(sc["fsize"])
+
+            def preexec():
+                # "disk full": writes beyond the limit fail with EFBIG (SIGXFSZ ignored)
+                import resource
+                signal.signal(signal.SIGXFSZ, signal.SIG_IGN)
+                resource.setrlimit(resource.RLIMIT_FSIZE, (limit, limit))
+        r = sim_link(link_argv(sc, inputs, extra), d, plan, tag="run", ctl_dir=ctl, preexec=preexec)
         check_sim_health(r, f"fs scenario {index} {sc}")
         for p in procs:
             p.kill()
@@ -333,11 +343,13 @@ def _fault_class(sc):
 
 
 def _c17_sig(sc, res, what):
-    kind = sc["fault"].split("@")[0] if sc["fault"] else "nofault"
+    kind = sc["fault"].split("@")[0] if sc["fault"] else ("fsize-limit" if sc.get("fsize") else "nofault")
     return f"fs/status0-{what}/{'fork' if sc['fork'] else 'nofork'}/{kind}"
 
 
 def _c18_sig(sc, how):
+    if sc.get("fsize") and not sc["fault"] and sc["kind"] == "ok":
+        return f"fs/output-{how}/ok/write-error-fsize-limit"
     return f"fs/output-{how}/{sc['kind']}/{_fault_class(sc) if sc['fault'] else 'genuine'}"
 
 
@@ -394,6 +406,15 @@ def run_job(job):
                       pseed=rng.getrandbits(48), prior=rng.choice(["absent", "good", "unrelated"]))
             scenarios.append(sc)
         scenarios.append(dict(base, fault=None))
+        # write errors ("disk full"): file size limit below the output size, all write modes
+        for _ in range(max(4, job["schedules"])):
+            scenarios.append(dict(base, fault=None, fsize=rng.choice([512, 4096, 8192, 20000]),
+                                  mmap=rng.choice([None, "--no-mmap-output-file"]),
+                                  mode=rng.choice([None, "--update-in-place",
+                                                   "--no-update-in-place"]),
+                                  fork=rng.random() < 0.5, threads=rng.choice([1, 2, 4]),
+                                  strategy=rng.choice(STRATEGIES), pseed=rng.getrandbits(48),
+                                  prior=rng.choice(["absent", "good", "unrelated"])))
     elif prop == "C18":
         for _ in range(job["schedules"]):
             sc = dict(base, strategy=rng.choice(STRATEGIES), pseed=rng.getrandbits(48),
@@ -402,7 +423,10 @@ def run_job(job):
                       mmap=rng.choice([None, "--no-mmap-output-file"]),
                       threads=rng.choice([1, 2, 4]), fork=rng.random() < 0.5)
             if base["kind"] == "ok":
-                sc["fault"] = f"err@site={rng.choice(ERR_SITES)}"
+                if rng.random() < 0.3:
+                    sc["fsize"] = rng.choice([512, 4096, 8192, 20000])
+                else:
+                    sc["fault"] = f"err@site={rng.choice(ERR_SITES)}"
             scenarios.append(sc)
     else:  # C19
         for _ in range(job["schedules"]):
@@ -423,10 +447,12 @@ def run_job(job):
             res["switches"] += r.get("switches", 0)
             if r.get("switches", 0) > 0:
                 res["distinct"].append(f"{index}:{r.get('trace_hash')}:{sc.get('fault')}")
-            fk = sc["fault"].split("@")[0] if sc["fault"] else "none"
+            fk = sc["fault"].split("@")[0] if sc["fault"] else ("fsize" if sc.get("fsize") else "none")
             c[f"fault_configured_{fk}"] = c.get(f"fault_configured_{fk}", 0) + 1
             if r.get("fault_fired"):
                 c[f"fault_fired_{fk}"] = c.get(f"fault_fired_{fk}", 0) + 1
+            if sc.get("fsize") and "File too large" in r.get("err", ""):
+                c["fault_fired_fsize"] = c.get("fault_fired_fsize", 0) + 1
             c[f"kind_{sc['kind']}"] = c.get(f"kind_{sc['kind']}", 0) + 1
             c[f"prior_{sc['prior']}"] = c.get(f"prior_{sc['prior']}", 0) + 1
             c["fork" if sc["fork"] else "nofork"] = c.get("fork" if sc["fork"] else "nofork", 0) + 1
